@@ -38,6 +38,7 @@ type c11Outcome struct {
 	verifyOK     bool
 	decodeCalled bool
 	path         []string
+	consumed     bool // the reader left for parsing is (built on) a reader object the verification has read to its end
 }
 
 func checkC11(p *Prog, rp *Report) {
@@ -100,9 +101,34 @@ func checkC11(p *Prog, rp *Report) {
 		installStringModels(m)
 		installIOGlobals(m)
 		out := &c11Outcome{verifyOK: sc.verifyOK}
+		// reader objects: which object a wrapper reads from, and which objects a verification has drained
+		under := map[int][]int{}
+		drained := map[int]bool{}
+		objOf := func(v Val) (int, bool) {
+			if iv, ok := v.(IfaceV); ok {
+				v = iv.V
+			}
+			if pp, ok := v.(Ptr); ok {
+				return pp.Obj, true
+			}
+			return 0, false
+		}
+		var drain func(id int)
+		drain = func(id int) {
+			if drained[id] {
+				return
+			}
+			drained[id] = true
+			for _, u := range under[id] {
+				drain(u)
+			}
+		}
 		wrap := func(name string) HookFn {
 			return func(m *Machine, st *State, call *ssa.CallCommon, args []Val) ([]Val, bool) {
 				id := st.alloc(types.Typ[types.Int], OpaqueV{name + "(" + prov(st, args[0]) + ")"})
+				if u, ok := objOf(args[0]); ok {
+					under[id] = append(under[id], u)
+				}
 				return []Val{Ptr{Obj: id}}, true
 			}
 		}
@@ -124,6 +150,11 @@ func checkC11(p *Prog, rp *Report) {
 				ps = append(ps, prov(st, e))
 			}
 			id := st.alloc(types.Typ[types.Int], OpaqueV{"multi(" + strings.Join(ps, "+") + ")"})
+			for _, e := range elems {
+				if u, ok := objOf(e); ok {
+					under[id] = append(under[id], u)
+				}
+			}
 			return []Val{IfaceV{T: ifT, V: Ptr{Obj: id}}}, true
 		}
 		m.Hooks["io.LimitReader"] = wrap("limit")
@@ -175,6 +206,12 @@ func checkC11(p *Prog, rp *Report) {
 		}
 		verify := func(m *Machine, st *State, call *ssa.CallCommon, args []Val) ([]Val, bool) {
 			out.verified = append(out.verified, keyringID(st, args[0])+"|"+prov(st, args[1])+"|"+prov(st, args[2]))
+			// the library reads both streams to their end
+			for _, a := range args[1:3] {
+				if id, ok := objOf(a); ok {
+					drain(id)
+				}
+			}
 			if !sc.verifyOK {
 				return []Val{&TupleV{E: []Val{nilV{}, IfaceV{T: errType, V: "signature made by unknown entity"}}}}, true
 			}
@@ -242,6 +279,20 @@ func checkC11(p *Prog, rp *Report) {
 				return nil, "no ParagraphReader in the result"
 			}
 			out.installed = prov(st, pr.F[fieldIndex(structOf(prT), roleField(prT, "*bufio.Reader", "reader"))])
+			if id, ok := objOf(pr.F[fieldIndex(structOf(prT), roleField(prT, "*bufio.Reader", "reader"))]); ok {
+				var walk func(id int, depth int)
+				walk = func(id int, depth int) {
+					if drained[id] {
+						out.consumed = true
+					}
+					if depth < 8 {
+						for _, u := range under[id] {
+							walk(u, depth+1)
+						}
+					}
+				}
+				walk(id, 0)
+			}
 			if s := prov(st, pr.F[fieldIndex(structOf(prT), roleField(prT, "*golang.org/x/crypto/openpgp.Entity", "signer"))]); s != "nil" {
 				out.signer = s
 			}
@@ -342,6 +393,9 @@ func checkC11(p *Prog, rp *Report) {
 							replP = append(replP, fmt.Sprintf("%s: the text handed to the parser is %s, not the decoded block's text", desc, o.installed))
 						}
 					}
+				}
+				if success && o.consumed {
+					replP = append(replP, fmt.Sprintf("%s: the reader left for parsing (%s) is built on the very reader object the verification read to its end: no paragraph of the signed text is returned", desc, o.installed))
 				}
 				if success && strings.Contains(o.installed, "the-input") && !strings.Contains(o.installed, "block.") {
 					replP = append(replP, fmt.Sprintf("%s: after success the parser still reads the raw input (%s): text outside the signed block reaches the caller", desc, o.installed))
